@@ -50,9 +50,10 @@ Proof.
   set (S2 := if keep g_z4 g_z5 then map (sample (hz4 rho) (hz5 rho) n) (seq 0 n) else []).
   set (S3 := if keep g_z5 g_z6 then map (sample (hz5 rho) (hz6 rho) n) (seq 0 n) else []).
   set (S4 := if keep g_z6 g_z7 then map (sample (hz6 rho) (hz7 rho) n) (seq 0 n) else []).
+  set (P7 := if keep g_z7 g_z9 then [hz7 rho] else []).
   apply (blocks_sdec (hz0 rho)
            [(hz1 rho, hz0 rho, [hz0 rho]); (hz3 rho, hz1 rho, S1); (hz4 rho, hz3 rho, P3); (hz5 rho, hz4 rho, S2);
-            (hz6 rho, hz5 rho, S3); (hz7 rho, hz6 rho, S4); (-1, 0, [0])]).
+            (hz6 rho, hz5 rho, S3); (hz7 rho, hz6 rho, S4); (0, hz7 rho, P7); (-1, 0, [0])]).
   assert (SB : forall ja jb a b, eval rho ja = a -> eval rho jb = b -> b <= a ->
                let l := if keep ja jb then map (sample a b n) (seq 0 n) else [] in sdec l /\ all_in b a l).
   { intros ja jb a b Ea Eb Hab l. unfold l. destruct (keep ja jb) eqn:Q; [|split; [exact I | constructor]].
@@ -66,6 +67,11 @@ Proof.
     specialize (K g_z3 g_z4 Q). change (eval rho g_z3) with (hz3 rho) in K. change (eval rho g_z4) with (hz4 rho) in K.
     split; [exact I|]. constructor; [lra | constructor]. }
   destruct P3ok as [A5 B5].
+  assert (P7ok : sdec P7 /\ all_in 0 (hz7 rho) P7).
+  { unfold P7. destruct (keep g_z7 g_z9) eqn:Q; [|split; [exact I | constructor]].
+    specialize (K g_z7 g_z9 Q). change (eval rho g_z7) with (hz7 rho) in K. change (eval rho g_z9) with 0 in K.
+    unfold hz9 in *. split; [exact I|]. constructor; [lra | constructor]. }
+  destruct P7ok as [A6 B6].
   cbn [blocks_ok]. repeat split; try lra; try assumption; try exact I.
   - constructor; [lra | constructor].
   - constructor; [lra | constructor].
